@@ -245,5 +245,14 @@ def replay(ctx, path):
     if out.get("status") == "stopped":
         print("the recorded schedule no longer applies to the code under /repo (an actor the schedule names was not runnable): "
               "the behaviour that was recorded cannot be reproduced on this tree")
-    bad = [a for a in out.get("anomalies", []) if ctx.prop in a["props"]]
+    bad = []
+    for a in out.get("anomalies", []):
+        if ctx.prop not in a["props"]:
+            continue
+        kf = match_known(ctx.prop, a.get("sig", ""))
+        if kf is not None:
+            print(f"KNOWN-FINDING: property={ctx.prop} {kf['id']} reproduced by this schedule: {a.get('sig', '')[:200]}")
+        else:
+            bad.append(a)
+            print(f"VIOLATION property={ctx.prop} replay={path} {a.get('sig', '')[:200]}")
     return 1 if bad else 0
